@@ -295,7 +295,13 @@ pub fn run(tier: Tier, seed: u64) -> i32 {
     ctx.set_rule("systematic enumeration, n in {2,3}, every evaluator choice: one argument invalid at a time (p_own, p_eval, p_out element at boundary n, n+1, far out of range and at 2^w + k for w in {8,16,32,40} and every valid k [aliases a valid index when truncated] at every position of sorted / unsorted / repeating lists, empty p_out, input length 0/1/3/7 instead of 2) at one party while the others are honest - oracle: that party returns Err with zero channel operation attempts (starts are recorded by the network) and nobody panics; circuits failing validation at all parties - Err with zero attempts, also when the invalid description is written into circuit objects that the same parties have just run successfully (history of two calls); p_out with repeated / unsorted indices - either rejected that way or every party behaves as for the deduplicated set (clear-text result); circuit descriptions that pass validation but whose counters disagree with their instructions (and_ops, misplaced / surplus Input, Input.party / Input.input out of range, input_regs vs instructions, oversized max_reg_count; single and all paired mutations) - no party panics; every case is executed without a tracing subscriber and under one that enables every span and event; distinct by hash of the case");
     let all = cases(tier, seed);
     ctx.extra("enumerated_cases", json!(all.len()));
-    enumerate(&ctx, &all, test_case);
+    // the two-call histories look at state that survives between calls in the process, so they run
+    // alone on one thread, before the rest runs in parallel
+    let (serial, parallel): (Vec<Case>, Vec<Case>) = all.into_iter().partition(|c| matches!(c, Case::Reused { .. }));
+    crate::fw::enumerate_with(&ctx, &serial, test_case, 1);
+    if !ctx.stopped() {
+        enumerate(&ctx, &parallel, test_case);
+    }
     ctx.exhaustive.store(!ctx.stopped(), std::sync::atomic::Ordering::Relaxed);
     ctx.finish()
 }
